@@ -215,14 +215,28 @@ fn run_case(case: &str, c: &Value, rng: &mut Rng, scratch: &Scratch) -> Vec<Valu
         }
         table.push(rec);
     }
-    // string block of the input file: the empty string, then the pool in REVERSE order, used or not
+    // string block of the input file: the empty string, then the pool in REVERSE order, used or not;
+    // every second string is stored a SECOND time further on (legal input: the same text at two
+    // offsets), and references pick either copy -- the writer has to fold them into one.
     let mut block = vec![0u8];
     let mut off_of = vec![0u32; pool.len()];
+    let mut off_alt = vec![0u32; pool.len()];
     for i in (1..pool.len()).rev() {
         off_of[i] = block.len() as u32;
         block.extend_from_slice(pool[i].as_bytes());
         block.push(0);
     }
+    for i in 1..pool.len() {
+        off_alt[i] = off_of[i];
+        if i % 2 == 1 {
+            off_alt[i] = block.len() as u32;
+            block.extend_from_slice(pool[i].as_bytes());
+            block.push(0);
+        }
+    }
+    // a second empty string at the very end of the block
+    off_alt[0] = block.len() as u32;
+    block.push(0);
     let mut bytes0 = Vec::with_capacity(20 + n * rs + block.len());
     bytes0.extend_from_slice(b"WDBC");
     for v in [n as u32, fc, rs as u32, block.len() as u32] {
@@ -237,7 +251,7 @@ fn run_case(case: &str, c: &Value, rng: &mut Rng, scratch: &Scratch) -> Vec<Valu
                     V::I32(x) => x.to_le_bytes().to_vec(),
                     V::U32(x) => x.to_le_bytes().to_vec(),
                     V::F32(x) => x.to_le_bytes().to_vec(),
-                    V::Str(i) => off_of[*i].to_le_bytes().to_vec(),
+                    V::Str(i) => (if rng.chance(1, 2) { off_of[*i] } else { off_alt[*i] }).to_le_bytes().to_vec(),
                     V::Bool(x) => (*x as u32).to_le_bytes().to_vec(),
                     V::U8(x) => vec![*x],
                     V::I8(x) => vec![*x as u8],
